@@ -1173,6 +1173,107 @@ def c15(ctx):
     ctx.cov["samples"] = samples([c for c in cases if c["renders"][0]["sql"] != c["renders"][2]["sql"]] or cases)
 
 
+# ------------------------------------------------------------------------------------ C02
+
+@check("C02")
+def c02(ctx):
+    props.check_props_file(ctx, "Props/C02.v")
+    stride = 12 if ctx.quick() else 1
+    n = 2500 if ctx.quick() else 60000
+    cases = special_mode_cases(ctx, "c02", ["-n", str(n), "-depth", str(3 if ctx.quick() else 5), "-stride", str(stride)])
+    ctx.cov["cases_by_generator"] = dict(Counter(c["gen"] for c in cases))
+    correspondence(ctx, cases)
+    # every distinct text the implementation emits for the composed value: the four option combinations and the
+    # two occurrences inside SELECT <e> FROM t WHERE <e>
+    reqs, owner = [], []
+    emb_bad = 0
+    for ci, c in enumerate(cases):
+        texts = []
+        for r in c["renders"][:4]:
+            if r.get("panic"):
+                ctx.violation("rendering an operator expression panicked", {"prog": c["prog"], "panic": r["panic"]})
+                continue
+            t = bytes.fromhex(r["sql"])
+            if t not in [x for x, _ in texts]:
+                texts.append((t, f"stand-alone v={r['v']} p={r['p']}"))
+        if c.get("emb_panic"):
+            ctx.violation("rendering the embedded expression panicked", {"prog": c["prog"], "panic": c["emb_panic"]})
+        else:
+            emb = bytes.fromhex(c["embedded"])
+            i = emb.find(b" FROM t WHERE ")
+            if not emb.startswith(b"SELECT ") or i < 0:
+                emb_bad += 1
+                ctx.violation("the statement embedding the expression is not SELECT <e> FROM t WHERE <e>",
+                              {"prog": c["prog"], "embedded": emb.decode("utf8", "replace")})
+            else:
+                for t, where in ((emb[7:i], "select list"), (emb[i + 14:], "WHERE")):
+                    if t not in [x for x, _ in texts]:
+                        texts.append((t, "embedded in " + where))
+        for t, where in texts:
+            reqs.append(f"(c02 {c['dump']} s{t.hex()})")
+            owner.append((ci, t, where))
+    answers = corr.model_answers(reqs)
+    listed = {k["id"]: k for k in known_for("C02")}
+    verdicts = Counter()
+    site_hist = Counter()
+    known_hit = {}
+    ev = 0
+    nontriv = set()
+    decodefail = []
+    for (ci, t, where), a in zip(owner, answers):
+        c = cases[ci]
+        parts = a.split(" ")
+        if parts[0] != "C02":
+            decodefail.append({"prog": c["prog"], "answer": a[:200]})
+            continue
+        ev += 1
+        kind = parts[1]
+        verdicts[kind + ("" if kind == "skip" else (":covered" if parts[2] == "T" else ":uncovered"))] += 1
+        if kind == "ok":
+            if b"(" in t or b" " in t:
+                nontriv.add(c["dump"])
+            continue
+        if kind == "skip":
+            continue
+        composed = bytes.fromhex(parts[3][1:]).decode("utf8", "replace")
+        parsed = bytes.fromhex(parts[4][1:]).decode("utf8", "replace") if kind == "mismatch" else None
+        sites = [x for x in (parts[5] if len(parts) > 5 else "").split(",") if x]
+        rep = {"prog": c["prog"], "where": where, "emitted": t.decode("utf8", "replace"), "composed": composed,
+               "read_back_as": parsed if parsed is not None else "(not an expression: rejected by the grammar)",
+               "failing_sites": sites, "dump": c["dump"][:3000]}
+        for s_ in sites:
+            site_hist[s_] += 1
+        unlisted = [s_ for s_ in sites if "D7-" + s_ not in listed]
+        if parts[2] == "T":
+            ctx.violation("a tree the checker accepts (C02_parse_back applies) reads back differently: model / "
+                          "implementation / reader disagree", rep)
+        elif not sites:
+            ctx.violation("the emitted text does not denote the composed expression and no local precedence "
+                          "condition of the model fails", rep)
+        elif unlisted:
+            rep["unlisted_sites"] = unlisted
+            ctx.violation("the emitted text does not denote the composed expression (operator/operand combination "
+                          "not among the recorded findings): " + ", ".join(unlisted), rep)
+        else:
+            for s_ in sites:
+                known_hit.setdefault("D7-" + s_, rep)
+    ctx.obligation("every c02 request is answered by the model", not decodefail, json.dumps(decodefail[:3]))
+    skipped = verdicts.get("skip", 0)
+    ctx.obligation("at most 1% of the texts are outside the reader's fragment", skipped * 100 <= max(1, ev), str(skipped))
+    for kid, rep in sorted(known_hit.items()):
+        ctx.known.append(f"{kid} e.g. {rep['prog']} is emitted as {rep['emitted']!r}, which reads back as {rep['read_back_as']}")
+    ctx.cov["evaluations"] = ev
+    ctx.cov["distinct_nontrivial"] = len(nontriv)
+    ctx.cov["verdicts"] = dict(verdicts)
+    ctx.cov["failing_site_classes"] = dict(site_hist)
+    ctx.cov["rule"] = ("spines through every (parent kind, operand position, direct/re-wrapped, child kind) up to depth 3 "
+                       f"(depth 3: every {stride}th) plus random full trees; every distinct text emitted for a value "
+                       "(4 option combinations, select list, WHERE) is lexed and read with PostgreSQL's precedence table "
+                       "and compared with the composed tree modulo re-association of + * AND OR chains; "
+                       "non-trivial = distinct composed values with at least one operator that read back equal")
+    ctx.cov["samples"] = samples(cases[10:])
+
+
 # ------------------------------------------------------------------------------------ C20
 
 @check("C20")
